@@ -424,30 +424,49 @@ def rule_counter_update(ctx, rule='R06.9'):
     that marker: the store through the pointer computed from the descriptor's offset_N may depend on the field's data
     type only, not on whether (or how many) bytes were read."""
     from . import pathcond
+    from .. import normal
     tu = cfront.load_tu('input.c')
-    fn = tu.func('reb_input_fields')
-    pcs = pathcond.conditions(fn)
-    counters = set()
-    for d in walk(cfront.body(fn)):
-        if d.get('kind') == 'VarDecl' and 'init' in d and '*' in qtype(d):
-            init = [c for c in d.get('inner', []) if c.get('kind') not in ('FullComment',)]
-            if init and 'offset_N' in render(init[-1]):
-                counters.add(d['name'])
-    anchor(counters, 'reb_input_fields: pointer to the element counter (descriptor offset_N)')
+    fns = normal.with_new_helpers(tu, 'reb_input_fields')      # the reader and helpers split off from it (one per data type)
+    pcs_of = {f_['name']: pathcond.conditions(f_) for f_ in fns}
+
+    def call_conditions(name, depth=0):
+        """conditions under which a split-off helper is called (union over its call sites, callers' own call sites included)"""
+        out = []
+        if depth > 3:
+            return out
+        for g_ in fns:
+            for e_ in walk(cfront.body(g_)):
+                if e_.get('kind') == 'CallExpr' and callee_name(e_) == name:
+                    out += list(pcs_of[g_['name']].get(id(e_), [])) + call_conditions(g_['name'], depth + 1)
+        return out
     n = 0
-    for e in walk(cfront.body(fn)):
-        if not is_assign(e):
+    any_counter = False
+    for fn in fns:
+        pcs = pcs_of[fn['name']]
+        counters = set()
+        for d in walk(cfront.body(fn)):
+            if d.get('kind') == 'VarDecl' and 'init' in d and '*' in qtype(d):
+                init = [c for c in d.get('inner', []) if c.get('kind') not in ('FullComment',)]
+                if init and 'offset_N' in render(init[-1]):
+                    counters.add(d['name'])
+        if not counters:
             continue
-        l0 = strip(e['inner'][0], casts=True)
-        if l0.get('kind') == 'UnaryOperator' and l0.get('opcode') == '*' and render(l0['inner'][0]).strip('()') in counters:
-            n += 1
-            cs = [c.replace(' ', '') for c in pcs.get(id(e), [])]
-            other = [c for c in cs if not re.search(r'dtype|\.type==|\.type!=|descriptor_list\[|fd_\w+\.type|REB_FIELD_END|numread|fread', c) and 'found' not in c]
-            # conditions that select the descriptor row / data type are the dispatch; anything else makes the update conditional
-            other = [c for c in other if re.search(r'success|size|read|ok|ret', c)]
-            if other:
-                ctx.report(rule, 'input:counter:conditional', 'src/input.c:%s reb_input_fields' % line_of(e),
-                           'the element counter of an array field is only updated under %s: a field of size 0 (an array that vanished since the first snapshot) leaves the counter of the first snapshot in place, so the loaded snapshot keeps arrays the live simulation no longer had' % other)
+        any_counter = True
+        outer = call_conditions(fn['name']) if fn['name'] != 'reb_input_fields' else []
+        for e in walk(cfront.body(fn)):
+            if not is_assign(e):
+                continue
+            l0 = strip(e['inner'][0], casts=True)
+            if l0.get('kind') == 'UnaryOperator' and l0.get('opcode') == '*' and render(l0['inner'][0]).strip('()') in counters:
+                n += 1
+                cs = [c.replace(' ', '') for c in list(pcs.get(id(e), [])) + outer]
+                other = [c for c in cs if not re.search(r'dtype|\.type==|\.type!=|descriptor_list\[|fd_\w+\.type|REB_FIELD_END|numread|fread', c) and 'found' not in c]
+                # conditions that select the descriptor row / data type are the dispatch; anything else makes the update conditional
+                other = [c for c in other if re.search(r'success|size|read|ok|ret', c)]
+                if other:
+                    ctx.report(rule, 'input:counter:conditional', 'src/input.c:%s %s' % (line_of(e), fn['name']),
+                               'the element counter of an array field is only updated under %s: a field of size 0 (an array that vanished since the first snapshot) leaves the counter of the first snapshot in place, so the loaded snapshot keeps arrays the live simulation no longer had' % other)
+    anchor(any_counter, 'reb_input_fields: pointer to the element counter (descriptor offset_N)')
     anchor(n >= 1, 'stores to the element counter in reb_input_fields')
     ctx.covered(rule, 'element counters of array fields are stored for every field read, whatever its size', n, floor=1)
 
